@@ -163,6 +163,8 @@ def worker(args) -> dict:
     if cov is not None:
         cov.stop()
         cov.save()
+    if jobs > 1:
+        env.cleanup_now()
     return acc.to_dict()
 
 
